@@ -111,6 +111,12 @@ def isJsonPrimTy : PTy → Bool
   | .bool _ | .int .. | .float .. | .str .. => true
   | _ => false
 
+/-- the generator sets `user_defined=True` only on attributes whose validator is a struct / union
+validator (`validatorOf_userDefined` proves it of the IR-level generator model; the harness should
+evaluate this on every environment it sends, like `envWF`) -/
+def attrFlagsOk (env : Env) : Bool :=
+  env.structs.all fun s => s.allAttrs.all fun f => !f.attrUserDefined || isUserTy f.ty
+
 /-- what reading field `f` gives after `x` was successfully assigned to it: the value itself for a
 field of a user type (stored by reference), its normalisation otherwise. (Assigning None to a
 nullable field unsets it; reading then gives None, which is `x` again.) -/
